@@ -120,6 +120,8 @@ def toggle_world(ctx, eng, st):
         return [(Fn(call), s)]
     eng.attrs[("cachedfn", "_invalidate_cache")] = inval_attr
     eng.genv["utils"] = u
+    # whatever else of the utils module a toggle may consult: the current terminal size (any size, unrelated to the cache's stamp)
+    st.H(u)["get_terminal_size"] = Fn(lambda e, s, a, k: [((z3.Int("terminal_columns_now"), z3.Int("terminal_lines_now")), s)])
     # publication order (monitor rule): what the settings and the cache are each time the cell-size lock is released / a memoized
     # answer is dropped - a caller that runs right after that point computes under exactly those settings and caches the result
     lock = st.new("monlock", {})
